@@ -27,13 +27,26 @@ def union_conflicts(path):
     open(path, "w").write("".join(out))
 
 def merge_kf(path):
+    """3-way: union of both sides, minus what either side removed relative to the base."""
     ours = json.loads(git_show(2, path)); theirs = json.loads(git_show(3, path))
+    try:
+        base = json.loads(git_show(1, path))
+    except Exception:
+        base = {"findings": [], "fixed": []}
+    out = {}
     for key in ("findings", "fixed"):
-        seen = [json.dumps(x, sort_keys=True) for x in ours.get(key, [])]
-        for x in theirs.get(key, []):
-            if json.dumps(x, sort_keys=True) not in seen:
-                ours.setdefault(key, []).append(x)
-    json.dump(ours, open(path, "w"), indent=1)
+        def ident(x):
+            return json.dumps([x.get("property"), x.get("id"), x.get("class")]) if isinstance(x, dict) else x
+        b = {ident(x) for x in base.get(key, [])}
+        o = {ident(x): x for x in ours.get(key, [])}
+        t = {ident(x): x for x in theirs.get(key, [])}
+        removed = (b - set(o)) | (b - set(t))
+        res = []
+        for k, v in list(o.items()) + [(k, v) for k, v in t.items() if k not in o]:
+            if k not in removed:
+                res.append(v)
+        out[key] = res
+    json.dump(out, open(path, "w"), indent=1)
 
 for p in sys.argv[1:]:
     if p.endswith("known_findings.json"):
